@@ -385,6 +385,19 @@ func renderQuery(axioms []*Term, assumptions []*Term, goal *Term, extraDecls []s
 		}
 		sb.WriteString(ds.funs[n] + "\n")
 	}
+	// distinct string literals denote distinct strings (and none of them is nil)
+	var strs []string
+	for _, n := range names {
+		if strings.HasPrefix(n, "str$") && n != "str$len" && n != "str$at" && n != "str$cat" && n != "str$bytes" && !strings.HasPrefix(n, "str$of") && strings.Contains(ds.funs[n], " () V)") {
+			strs = append(strs, smtName(n))
+		}
+	}
+	if len(strs) >= 1 {
+		strs = append(strs, "nil")
+	}
+	if len(strs) >= 2 {
+		sb.WriteString("(assert (distinct " + strings.Join(strs, " ") + "))\n")
+	}
 	for _, a := range axioms {
 		sb.WriteString("(assert " + a.String() + ")\n")
 	}
